@@ -59,14 +59,14 @@ partial def ibox? : Sx → Option IBox
     pure (.text (← x.rat?) (← w.rat?) (count txt ' ' + count txt '\u00a0'))
   | .list [.atom "i", x, w, rtl, .list kids] => do
     pure (.inl (← x.rat?) (← w.rat?) (← rtl.bool?) (← allSome ibox? kids))
-  | .list [.atom "a", x, f] => do
-    pure (.atom (← x.rat?) (← f.bool?))
+  | .list [.atom "a", x, f, .list kids] => do
+    pure (.atom (← x.rat?) (← f.bool?) (← allSome ibox? kids))
   | _ => none
 
 partial def iboxSx : IBox → Sx
   | .text x w s => .list [.atom "t", sxRat x, sxRat w, sxNat s]
   | .inl x w rtl kids => .list [.atom "i", sxRat x, sxRat w, sxBool rtl, .list (kids.map iboxSx)]
-  | .atom x f => .list [.atom "a", sxRat x, sxBool f]
+  | .atom x f kids => .list [.atom "a", sxRat x, sxBool f, .list (kids.map iboxSx)]
 
 def alignLast? (x : Sx) : Option (Option Align) :=
   match x with
